@@ -100,8 +100,12 @@ def run(tier, seed, rep):
     r = core.model_check("MC_Series", "MC_Series.cfg", workers=8)
     rep.add_mc("MC_Series (the reference offsets are internally consistent)", r)
     evs = []
-    for i in range(12000 if thorough else 900):
-        evs.append(series_event(pp, f"s{i}", gen(rnd), i % 3 != 0, rnd))
+    for i in range(6000 if thorough else 450):
+        A = gen(rnd)
+        first = i % 3 != 0
+        # the same peptide in both mass modes, one after the other (in either order)
+        evs.append(series_event(pp, f"s{i}.0", A, first, rnd))
+        evs.append(series_event(pp, f"s{i}.1", A, not first, rnd))
     res = core.validate_traces("Trace_Fragment", evs, "C05", per_shard_max=500, min_per_shard=20)
     rep.add_trace("ion_series", evs, res,
                   sig=lambda e: (len(e["A"]["seq"]), e["mono"], bool(e["A"]["nterm"]), bool(e["A"]["cterm"]),
